@@ -9,7 +9,7 @@ RULE = ("S-PROG (all profiles) and the fault/loop-injection streams with every p
         "each build with fresh random hash seeds in every internal table: all runs must give identical results (every wire "
         "value, register, memory byte and status of every cycle; for rejected programs the same multiset of diagnostic "
         "kinds and names, loop contents excepted); the number of distinct schedules actually observed per program is "
-        "recorded. S-DUMP: the printed state of designs with up to six register banks (several with letters outside PFDEMW, which the code keeps in hash maps) is compared with the one text the model prints. distinct = distinct program texts; non-trivial = programs for which at least two different schedules or "
+        "recorded; the multi-fault stream plants two or three independent faulty expressions, all of which every build must report. S-DUMP: the printed state of designs with up to six register banks (several with letters outside PFDEMW, which the code keeps in hash maps) is compared with the one text the model prints. distinct = distinct program texts; non-trivial = programs for which at least two different schedules or "
         "a rejection were observed.")
 
 
@@ -28,6 +28,7 @@ def streams(tier, seed):
         out.append({"name": "prog-" + p, "stream": "prog", "count": 120 if q else 5000, "extra": (p,), "judge": judge})
     out.append({"name": "prog-fault", "stream": "prog-fault", "count": 400 if q else 15000, "judge": judge})
     out.append({"name": "prog-loop", "stream": "prog-loop", "count": 400 if q else 15000, "judge": judge})
+    out.append({"name": "prog-multi", "stream": "prog-multi", "count": 300 if q else 10000, "judge": judge})
     # printed output: the state dump of designs with up to six register banks (letters outside P F D E M W included)
     # must be the one deterministic text the model prints (fixed bank order, sorted letters for the rest)
     from props import C16
